@@ -12,6 +12,8 @@ behaviour x To=void x registration syntax) are picked in Init, so one TLC run co
   Adapters_conc.cfg  Grain = "atomic": registering thread x one resolver, every interleaving of
                      Check/Cas/Fence with Claim/Swap, replayed on real threads under vsched
   Adapters_race.cfg  the same with two competing resolvers (value / exception / drop against each other)
+  thorough: Adapters_seq3.cfg (three operations per scenario), Adapters_race_full.cfg (all four allocators),
+                     full edge cover everywhere, replayer built with ASan/UBSan
   Adapters_pinned.cfg  property self-test: FixVoidSrc = FALSE must violate ConvertedValueOrException
 
 The specification describes the repaired behaviour of the void-source converters (FixVoidSrc = TRUE): they
@@ -184,9 +186,10 @@ def run(ctx):
     rp = vlib.compile_harness(os.path.join(vlib.VERIF, "harness/adapters_replay.cpp"), "adapters_replay",
                               sanitize=not ctx.quick)
     kw = {"workers": 4}
-    # every (adapter x outcome x sequential timing x allocator) combination, two operations per scenario
+    # every (adapter x outcome x sequential timing x allocator) combination, two (thorough: three) operations per scenario
     with swapped_cover(cover_by_init(None)):
-        graph_replay(ctx, "Adapters", "Adapters", "Adapters_seq.cfg", "seq", rp, proj_seq, header_fn=header("seq"),
+        graph_replay(ctx, "Adapters", "Adapters", "Adapters_seq.cfg" if ctx.quick else "Adapters_seq3.cfg", "seq", rp,
+                     proj_seq, header_fn=header("seq"),
                      must_take=SEQ_ACTIONS, key_fn=key_fn, tlc_kw=kw)
     # concurrent timing, one resolver: full edge cover (small)
     with swapped_cover(cover_by_init(None)):
@@ -194,7 +197,8 @@ def run(ctx):
                      must_take=CONC_ACTIONS, key_fn=key_fn, tlc_kw=kw)
     # concurrent timing, two competing resolvers: capped per combination in quick
     with swapped_cover(cover_by_init(6 if ctx.quick else None)):
-        graph_replay(ctx, "Adapters", "Adapters", "Adapters_race.cfg", "race", rp, proj_conc, header_fn=header("conc"),
+        graph_replay(ctx, "Adapters", "Adapters", "Adapters_race.cfg" if ctx.quick else "Adapters_race_full.cfg", "race", rp,
+                     proj_conc, header_fn=header("conc"),
                      must_take=CONC_ACTIONS, key_fn=key_fn, tlc_kw=kw)
     # property self-test: the pinned behaviour of the void-source converters must be rejected
     res = vlib.run_tlc(os.path.join(vlib.VERIF, "spec", "Adapters"), "Adapters",
